@@ -978,6 +978,14 @@ def witness(name: str):
     if name == 'numpy_count':
         import numpy
         return [P.RepetitionPT(P.ConstantPT(1, {'A': 1}), numpy.int64(3), identifier='r')], [{}]
+    if name == 'ne_constraint':
+        import sympy
+        return [P.SequencePT(P.FunctionPT('a*t', 'd', 'A', parameter_constraints=['Ne(a, b + 1)', 'a == c']),
+                             identifier='s', parameter_constraints=[sympy.Ne(sympy.Symbol('d') * 2, sympy.Symbol('a') + 5000),
+                                                                    'a + 1 <= d**2 + 5000'])], \
+               [{'a': 1, 'b': 3, 'c': 1, 'd': 1.5}, {'a': 1, 'b': 0, 'c': 1, 'd': 1.5}, {'a': 1, 'b': 3, 'c': 2, 'd': 1.5}]
+    if name == 'decided_constraint':
+        return [P.FunctionPT('a*t', 'd', 'A', parameter_constraints=['a == a'], identifier='f')], [{'a': 1, 'd': 1}]
     if name == 'range_hash_collision':
         body = lambda: P.ConstantPT('d0', {'A': 'i*v0'})
         return [P.ForLoopPT(body(), 'i', ('n0 + 7', 0, -1), identifier='down1'),
@@ -1016,10 +1024,11 @@ def small_scope(ctx) -> List[Case]:
 
     M = [('m', 0, 'd0')]
     C = ['v0 < 1000']
+    C2 = ['Ne(v0, 5000)', 'v0 + 1 <= 2*n0 + 4000', 'd0 == d0*v0/v0 + 0*n0', 'Eq(2*d0, d0 + d0*1.0)'][:2] + ['Ne(2*d0, v0 - 7000)']
     for named_child in (False, True):
         def leaf(ch='A', dur='d0'):
             return P.ConstantPT(dur, {ch: 'v0'}, identifier=ident('c') if named_child else None)
-        for meas, cons in itertools.product((None, M), (None, C)):
+        for meas, cons in itertools.product((None, M), (None, C, C2)):
             roots = [
                 P.TablePT({'A': [(0, 'v0'), ('d0', 1, 'linear')]}, identifier=ident(), measurements=meas,
                           parameter_constraints=cons),
@@ -1186,6 +1195,9 @@ def malformed(ctx: core.Ctx):
             warnings.simplefilter('ignore')
             for key, pt in done:
                 probs = loaded_problems(backend, pt, assign or [{}])
+                if probs and any(pred(pt) for pred in KNOWN_CLASSES.values()):
+                    ctx.count('known-class:malformed-stream')
+                    continue
                 if probs:
                     ctx.violation('the store of %r returned normally but a fresh storage does not load the original back: %s '
                                   '[malformed stream: %s; template %s]' % (key, ', '.join(probs), name, repr(pt)[:600]),
@@ -1275,6 +1287,181 @@ def malformed(ctx: core.Ctx):
 
 
 # ------------------------------------------------------------------------------------------------
+# several live PulseStorage objects over one backend
+# ------------------------------------------------------------------------------------------------
+
+class MultiCase:
+    """2-3 PulseStorage objects over ONE backend with an interleaved history of first stores (`storage[id] = t`),
+    `overwrite` (of a new version or of the session's own earlier version) and `del storage[id]` on a few root
+    identifiers. Every version has its own (version specific) named sub-templates, only root identifiers are
+    overwritten or deleted. Afterwards the backend is the single source of truth: what a fresh storage loads for a
+    root is the template of the LAST store / overwrite of that identifier that returned normally (nothing after a
+    delete)."""
+
+    def __init__(self, seed: int, script: Optional[list] = None):
+        self.seed = seed
+        rng = random.Random(seed)
+        P = _q()['P']
+        self.backend = rng.choice(['dict', 'fs', 'zip'])
+        self.k = rng.randrange(2, 4)
+        self.gen = c10gen.Gen(rng, p_share=0.0, weird_ids=False, p_named=0.4)
+        self.rids = ['r0', 'r1'][:rng.randrange(1, 3)]
+        self.ops = []                      # (kind, session, rid, template or None)
+        mine: Dict[Tuple[int, str], Any] = {}
+
+        def version(rid):
+            with warnings.catch_warnings():
+                warnings.simplefilter('ignore')
+                inner = self.gen.gen(rng.randrange(0, 3), ['A'])
+                return rng.choice([lambda: P.SequencePT(inner, identifier=rid),
+                                   lambda: P.TimeReversalPT(inner, identifier=rid),
+                                   lambda: P.RepetitionPT(inner, 2, identifier=rid, measurements=[('w%d' % len(self.ops), 0, 1)])])()
+        if script is None:
+            script = []
+            for _ in range(rng.randrange(4, 9)):
+                script.append((rng.choice(['set', 'over', 'over', 'own', 'own', 'del']), rng.randrange(self.k),
+                               rng.choice(self.rids)))
+        for kind, k, rid in script:
+            if kind == 'own':
+                if (k, rid) not in mine:
+                    kind = 'over'
+                else:
+                    self.ops.append(('over', k, rid, mine[(k, rid)]))
+                    continue
+            if kind == 'del':
+                self.ops.append(('del', k, rid, None))
+            else:
+                v = version(rid)
+                mine[(k, rid)] = v
+                self.ops.append((kind, k, rid, v))
+        names = set(self.gen.all_parameters())
+        self.assign = c10gen.assignments(rng, names, 2)
+
+    def describe(self):
+        return [(kind, k, rid, None if t is None else repr(t)[:400]) for kind, k, rid, t in self.ops]
+
+
+MULTI_SCRIPTS = {
+    # the other session replaced the pulse, then this session stores its own again
+    'replace': (2, [('set', 0, 'r0'), ('over', 1, 'r0'), ('own', 0, 'r0')]),
+    # the other session deleted it
+    'delete': (2, [('set', 0, 'r0'), ('del', 1, 'r0'), ('own', 0, 'r0')]),
+    'three': (3, [('set', 0, 'r0'), ('set', 1, 'r1'), ('over', 2, 'r0'), ('own', 0, 'r0'), ('over', 2, 'r1'),
+                  ('own', 1, 'r1'), ('del', 0, 'r1'), ('own', 1, 'r1')]),
+}
+
+
+def run_multi(ctx: core.Ctx, cases: List[MultiCase], label: str):
+    S = _q()['S']
+    lines, recs = [], []
+    for case in cases:
+        with warnings.catch_warnings():
+            warnings.simplefilter('ignore')
+            be = Backends(case.backend)
+            try:
+                storages = [S.PulseStorage(be.open()) for _ in range(case.k)]
+                outcomes, last = [], {}
+                for kind, k, rid, t in case.ops:
+                    ps = storages[k]
+                    if kind == 'set':
+                        res = outcome(lambda: ps.__setitem__(rid, t))
+                    elif kind == 'over':
+                        res = outcome(lambda: ps.overwrite(rid, t))
+                    else:
+                        res = outcome(lambda: ps.__delitem__(rid))
+                    outcomes.append(res[0] == 'ok')
+                    if res[0] == 'ok':
+                        # `storage[id] = t` with t already known to that storage writes nothing (documented no-op)
+                        if kind == 'set' and last.get(rid) is not t and rid in last and last[rid] is not None:
+                            pass
+                        last[rid] = t if kind != 'del' else None
+                fresh = be.open()
+                ids = sorted(fresh)
+                texts = {i: fresh.get(i) for i in ids}
+                problems = []
+                for rid, t in last.items():
+                    if t is None:
+                        if rid in ids:
+                            problems.append('%r was deleted last but is still in the backend' % rid)
+                    else:
+                        probs = loaded_problems(be.open(), t, case.assign)
+                        cls = [k for k, pred in KNOWN_CLASSES.items() if pred(t)] if probs else []
+                        if cls:
+                            ctx.count('known-class:' + ','.join(cls))       # (open finding, see known_findings.jsonl)
+                        elif probs:
+                            problems.append('the last store of %r returned normally but a fresh storage does not load that '
+                                            'template back: %s' % (rid, ', '.join(probs)))
+            finally:
+                be.close()
+            tok = Tok()
+            memo: dict = {}
+            ops_sx = []
+            for kind, k, rid, t in case.ops:
+                if kind == 'del':
+                    ops_sx.append('(del %d %s)' % (k, tok(rid)))
+                else:
+                    ops_sx.append('(%s %d %s)' % (kind, k, tree_sx(t, tok, memo)))
+            line = '(c10 multi (%s))' % ' '.join(ops_sx)
+            lines.append(line)
+            recs.append((case, line, outcomes, ids, texts, problems, tok))
+    answers = core.Lean.run(lines)
+    for (case, line, outcomes, ids, texts, problems, tok), ans in zip(recs, answers):
+        ctx.case(line, nontrivial=True)
+        ctx.count('%s:backend:%s' % (label, case.backend))
+        ctx.count('%s:ops' % label, len(case.ops))
+        ctx.count('%s:ops-raised' % label, outcomes.count(False))
+        rep = {'kind': 'multi', 'case_seed': case.seed, 'script': getattr(case, 'script_name', None),
+               'backend': case.backend, 'history': case.describe()}
+        drift = None
+        if ans[0] == 'ok':
+            model = {e[0]: e[1:] for e in ans[1:]}
+            m_out = [x == 'true' for x in model['outcomes']]
+            m_ids = sorted(tok.back.get(e[0], e[0]) for e in model['docs'])
+            m_refs = {tok.back.get(e[0], e[0]): sorted(tok.back.get(t, t) for t in e[1]) for e in model['refs']}
+            if m_out != outcomes:
+                drift = ('outcomes of a multi-storage history', outcomes, m_out)
+            else:
+                if ids != m_ids:
+                    problems.append('stored identifiers %r, expected %r' % (ids, m_ids))
+                for i in ids:
+                    try:
+                        refs = sorted(doc_refs(json.loads(texts[i])))
+                    except Exception as e:  # noqa
+                        problems.append('document %r is not valid JSON' % i)
+                        continue
+                    if i in m_refs and refs != m_refs[i]:
+                        problems.append('document %r references %r, expected %r' % (i, refs, m_refs[i]))
+        else:
+            drift = ('multi-storage request', 'ok', ans)
+        if problems:
+            ctx.violation('%s [several PulseStorage objects over one %s backend; history: %s]'
+                          % (problems[0], case.backend, [(o[0], o[1], o[2]) for o in case.ops]),
+                          dict(rep, all=problems[:8]))
+        elif drift:
+            ctx.drift(drift[0], line[:500], str(drift[1])[:300], str(drift[2])[:300])
+
+
+def multi_cases(ctx: core.Ctx, n: int):
+    rng = ctx.fork('multi')
+    out = []
+    for name, (k, script) in MULTI_SCRIPTS.items():
+        for b in ('dict', 'fs', 'zip'):
+            try:
+                c = MultiCase(rng.getrandbits(48), script)
+            except Exception as e:  # noqa
+                ctx.count('generator-rejected:' + type(e).__name__)
+                continue
+            c.k, c.backend, c.script_name = max(c.k, k), b, name
+            out.append(c)
+    for _ in range(n):
+        try:
+            out.append(MultiCase(rng.getrandbits(48)))
+        except Exception as e:  # noqa
+            ctx.count('generator-rejected:' + type(e).__name__)
+    return out
+
+
+# ------------------------------------------------------------------------------------------------
 # known findings
 # ------------------------------------------------------------------------------------------------
 
@@ -1282,7 +1469,8 @@ def known_findings(ctx: core.Ctx):
     """replay the witnesses of the open findings; print the KNOWN-FINDING line while they reproduce"""
     listed = {kf.get('finding'): kf for kf in ctx.findings.for_property('C10')}
     for fid, names in (('PF-C10b', ['derived_float', 'nested_mapping_float']), ('PF-C10c', ['int_channel']),
-                       ('PF-C10f', ['timetype_duration']), ('PF-C10g', ['numpy_count'])):
+                       ('PF-C10f', ['timetype_duration']), ('PF-C10g', ['numpy_count']),
+                       ('PF-C10h', ['decided_constraint'])):
         for name in names:
             with warnings.catch_warnings():
                 warnings.simplefilter('ignore')
@@ -1375,7 +1563,8 @@ def run(ctx: core.Ctx):
                 'clashes, missing / cyclic / id-less references, missing / unexpected keys, unknown type) and an '
                 'after-failure stream (a store that is rejected or fails mid-transaction - wrong key, identifier clash of '
                 'a nested template, identifier only in the backend, un-serialisable object - precedes valid stores on the '
-                'same PulseStorage). '
+                'same PulseStorage) and a multi-storage stream (2-3 live PulseStorage objects over one backend, interleaved '
+                'first stores / overwrites of new or own earlier versions / deletes of root identifiers; last normal store wins). '
                 'Non-trivial = the forest has more than one named node (so references exist); distinct by the '
                 'canonical model request (tree shapes with identifiers)')
     ctx.assumptions = [
@@ -1397,6 +1586,8 @@ def run(ctx: core.Ctx):
                                  'child; 4 store orders of a shared object (%d cases)' % len(cases))
     run_cases(ctx, cases, 'enum')
     opts = {'depth': 3}
+    # several live storages over one backend: the backend is the single source of truth
+    run_multi(ctx, multi_cases(ctx, ctx.n(30, 1500)), 'multi')
     # a rejected / failing store on the same PulseStorage must not affect later stores
     af_opts = {'depth': 2, 'roots': 2, 'assignments': 1}
     run_cases(ctx, after_failure_cases(ctx, ctx.n(30, 600), 'after-failure', af_opts), 'after-failure')
@@ -1450,6 +1641,14 @@ def replay(ctx: core.Ctx, rec: dict, from_corpus: bool = False) -> bool:
                 roots, assign = witness(rec['name'])
             run_cases(ctx, [Built(roots, backend=backend, assign=assign,
                                   origin={'kind': 'witness', 'name': rec['name'], 'backends': [backend]})], 'corpus')
+    elif kind == 'multi':
+        if rec.get('script'):
+            k, script = MULTI_SCRIPTS[rec['script']]
+            c = MultiCase(rec['case_seed'], script)
+            c.k, c.backend, c.script_name = max(c.k, k), rec.get('backend', c.backend), rec['script']
+        else:
+            c = MultiCase(rec['case_seed'])
+        run_multi(ctx, [c], 'replay')
     elif kind == 'after-failure':
         run_cases(ctx, [AfterFailure(rec['case_seed'], rec.get('opts', {}), rec['prelude'])], 'replay')
     elif kind == 'enum':
